@@ -68,11 +68,15 @@ pub fn gen_string(rng: &mut Rng) -> (String, StrClass) {
         }
         11 => (String::new(), StrClass::Empty),
         12 => {
-            let n = *rng.pick(&[31usize, 32, 33, 255, 256, 257, 1000, 5000]);
+            // byte lengths on both sides of every MessagePack str header class (fixstr 31, str8 255), hit exactly
+            let n = *rng.pick(&[31usize, 32, 33, 254, 255, 256, 257, 1000, 5000]);
             let unit = *rng.pick(&["a", "ab ", "é", "x\n", "😀"]);
             let mut s = String::new();
-            while s.len() < n {
+            while s.len() + unit.len() <= n {
                 s.push_str(unit);
+            }
+            while s.len() < n {
+                s.push('a');
             }
             (s, StrClass::Long)
         }
@@ -340,6 +344,25 @@ pub fn gen_doc(rng: &mut Rng, o: &GenOpts, cl: &mut Classes) -> Val {
 /// and documents of tens of KiB full of multi-byte characters (so that reads of
 /// 8 KiB / 16 KiB end inside characters).
 pub fn gen_heavy_doc(rng: &mut Rng) -> Val {
+    if rng.chance(1, 4) {
+        // strings whose byte length sits on the str16/str32 header boundary (and the str8 one)
+        let mut m = vec![];
+        for (i, n) in [65533usize, 65534, 65535, 65536, 65537, 254, 255, 256].iter().enumerate() {
+            if rng.chance(2, 3) {
+                let unit = *rng.pick(&["a", "xy", "é"]);
+                let mut s = String::new();
+                while s.len() + unit.len() <= *n {
+                    s.push_str(unit);
+                }
+                while s.len() < *n {
+                    s.push('a');
+                }
+                m.push((Val::Str(format!("s{i}")), Val::Str(s)));
+            }
+        }
+        m.push((Val::Str("end".into()), Val::Int(1)));
+        return Val::Map(m);
+    }
     if rng.chance(1, 2) {
         let n = *rng.pick(&[4095usize, 4096, 4097, 5000, 65535, 65536, 70000]);
         if rng_bool(rng) {
